@@ -42,11 +42,15 @@ type caState struct {
 	keyIdx  int
 
 	// ground truth
+	TermPubRaw   []byte
 	SharedX      []byte
 	KsEnc, KsMac []byte
 }
 
 func (c *Chip) CALast() (sharedX, ksEnc, ksMac []byte) { return c.ca.SharedX, c.ca.KsEnc, c.ca.KsMac }
+
+// CATermPub returns the terminal's ephemeral public key as received.
+func (c *Chip) CATermPub() []byte { return c.ca.TermPubRaw }
 
 func (c *Chip) caSupported(cp mac.Cipher) bool {
 	if len(c.Cfg.CAOIDs) == 0 {
@@ -105,6 +109,7 @@ func (c *Chip) mseSetATCA(items []tlvItem, protected bool) ([]byte, uint16) {
 
 func (c *Chip) caAgree(cp mac.Cipher, idx int, pub []byte) bool {
 	key := c.Cfg.CA[idx]
+	c.ca.TermPubRaw = append([]byte{}, pub...)
 	pk, err := key.Curve.Decode(pub)
 	if err != nil {
 		return false
